@@ -16,7 +16,7 @@ pub fn def() -> PropertyDef {
     PropertyDef {
         id: "C14",
         level: "exploration",
-        props: |_| vec![Box::new(Postfilter) as Box<dyn DynProp>, Box::new(PostfilterAfterHistory) as Box<dyn DynProp>],
+        props: |_| vec![Box::new(Postfilter) as Box<dyn DynProp>, Box::new(PostfilterAfterHistory) as Box<dyn DynProp>, Box::new(PostfilterAfterUnvoiced) as Box<dyn DynProp>],
         extra: no_extra,
         replay_custom: no_custom,
         assumptions: &[
@@ -214,6 +214,93 @@ impl Prop for PostfilterAfterHistory {
         );
         rep.nontrivial = !c.history.is_empty();
         rep.class(format!("history:{}", c.mode));
+        Ok(rep)
+    }
+}
+
+/// The postfiltered filter is the filter of EVERY frame, voiced or not: the response to the first
+/// pulse after some unvoiced frames equals the stationary response.
+#[derive(Debug, Clone, Serialize)]
+pub struct UnvCase {
+    pub base: Case,
+    pub n_unvoiced: usize,
+    /// 0 = mel-cepstral vocoder; 1..4 = LSP vocoder of that stage fed `lsp`
+    pub stage: usize,
+    pub lsp: Vec<f64>,
+}
+
+pub struct PostfilterAfterUnvoiced;
+
+impl Prop for PostfilterAfterUnvoiced {
+    type Case = UnvCase;
+    fn name(&self) -> String {
+        "postfilter-after-unvoiced".into()
+    }
+    fn rule(&self) -> String {
+        "cepstra as in postfilter (vector length 3..24; a fifth of the cases: an LSP vocoder, stage 1..4, order 2..12), beta in [0,0.5], 1..4 unvoiced frames of the same stationary spectrum, then a voiced frame: the response to its first pulse - isolated by rendering the sequence at 20 Hz and at 40 Hz and taking the difference, which cancels the noise tails - must equal the stationary (frame-2, all voiced) response within 1e-6 of its peak. Non-trivial: beta > 0".into()
+    }
+    fn tape_len(&self, _: Tier) -> usize {
+        8 * 26 + 64
+    }
+    fn cases(&self, tier: Tier) -> u32 {
+        tier.pick(1_500, 30_000)
+    }
+    fn decode(&self, t: &mut Tape, _: Tier) -> UnvCase {
+        let rate = *t.pick(&[16000usize, 8000, 22050, 48000]);
+        let alpha = gen_alpha(t);
+        let len = t.urange(3, 24);
+        let beta = match t.weighted(&[1, 6, 2]) {
+            0 => 0.0,
+            1 => t.uniform(0.01, 0.5),
+            _ => *t.pick(&[0.5, 0.1, 0.3, 0.4]),
+        };
+        let target = t.uniform(0.2, 2.0) / (1.0 + beta);
+        let cepstrum = gen_cepstrum(t, len, alpha, target);
+        let n_unvoiced = t.urange(1, 4);
+        let (stage, lsp) = if t.chance(0.2) {
+            let m = t.urange(2, 12);
+            let mut l = vec![t.log_uniform(0.3, 3.0)];
+            l.extend(super::c13::gen_lsp(t, m));
+            (t.urange(1, 4), l)
+        } else {
+            (0, vec![])
+        };
+        UnvCase { base: Case { rate, alpha, beta, cepstrum }, n_unvoiced, stage, lsp }
+    }
+    fn check(&self, c: &UnvCase) -> Result<Report, Failure> {
+        let b = &c.base;
+        let spectrum: &[f64] = if c.stage == 0 { &b.cepstrum } else { &c.lsp };
+        let stationary = measure_pulse(spectrum, c.stage, false, b.rate, b.alpha, b.beta, 1.0);
+        let after = crate::dsp::measure_pulse_after_unvoiced(spectrum, c.stage, false, b.rate, b.alpha, b.beta, c.n_unvoiced);
+        let n = after.len().min(stationary.frame2.len());
+        ensure!(n >= 64, "harness", "window too short");
+        if after.iter().chain(stationary.frame2.iter()).any(|x| !x.is_finite()) {
+            return Ok(Report::rejected("non-finite-response"));
+        }
+        // the stationary reference (frame 2 of an all-voiced run) still contains the tail of the
+        // response to frame 1's pulse: admit the case only when responses die out well inside a frame
+        {
+            let r = &stationary.frame1;
+            let q = r.len() / 2;
+            let tail: f64 = r[q..].iter().map(|x| x * x).sum();
+            let total: f64 = r.iter().map(|x| x * x).sum();
+            if !(tail <= 1e-18 * total) {
+                return Ok(Report::rejected("response-longer-than-half-a-frame"));
+            }
+        }
+        let scale = stationary.frame2[..n].iter().fold(0.0f64, |a, x| a.max(x.abs()));
+        let dmax = (0..n).fold(0.0f64, |a, i| a.max((after[i] - stationary.frame2[i]).abs()));
+        let mut rep = Report::new();
+        rep.metric("max_time_domain_error_rel", dmax / scale);
+        ensure!(
+            dmax <= 1e-6 * scale,
+            "postfilter-unvoiced-frames",
+            "the response to the first pulse after {} unvoiced frame(s) differs from the stationary response by {:e} of its peak (stage {}, beta {}, alpha {}, vector length {}): the filter of unvoiced frames is not the (postfiltered) filter of voiced ones",
+            c.n_unvoiced, dmax / scale, c.stage, b.beta, b.alpha, spectrum.len()
+        );
+        rep.nontrivial = b.beta > 0.0;
+        rep.class(if c.stage == 0 { "mel-cepstral" } else { "lsp" });
+        rep.class(format!("unvoiced-frames:{}", c.n_unvoiced));
         Ok(rep)
     }
 }
